@@ -5,7 +5,7 @@
    generator use no string <-> number conversion, remainder or exponentiation,
    so the tables of OpsExec stay empty. *)
 From Coq Require Import String ZArith Bool List Floats.
-From TsrunV Require Import Lang.Ops Lang.OpsExec Lang.Core Lang.CoreInst Base.Render.
+From TsrunV Require Import Lang.Ops Lang.OpsExec Lang.Core Lang.CoreInst Lang.Pratt Lang.PrattInst Base.Render.
 Import ListNotations.
 Local Open Scope string_scope.
 
@@ -15,7 +15,7 @@ Definition x_u : unop -> XP -> XP := run_un [] .
 Definition x_truthy (v : XP) : bool := to_boolean float PrimFloat.eqb 0%float PrimFloat.is_nan v.
 Definition x_int (z : Z) : XP := PNum float (f_ofint z).
 
-Definition x_expr := expr binop unop.
+Definition x_expr := Core.expr binop unop.
 Definition x_stmt := stmt binop unop.
 Definition x_op := op binop unop.
 
@@ -26,6 +26,22 @@ Definition x_machine (fuel : nat) (code : list x_op) : option (outcome XP) :=
 Definition x_source (fuel : nat) (body : list x_stmt) (final : x_expr) : option (outcome XP) :=
   run_source XP binop unop x_b x_u (x_u Typeof) x_truthy (is_nullish float)
              (PUndef float) (PNull float) (PBool float) x_int (PStr float) fuel body final.
+
+(* ---- unparenthesised operator chains: the tree is the one the precedence loop of Lang/Pratt.v builds ---- *)
+Definition tok_node (t : optok) (l r : x_expr) : x_expr :=
+  match t with
+  | TPipePipe => ELog _ _ LOr l r | TAmpAmp => ELog _ _ LAnd l r | TQuestionQuestion => ELog _ _ LNullish l r
+  | TPipe => EBin _ _ BitOr l r | TCaret => EBin _ _ BitXor l r | TAmp => EBin _ _ BitAnd l r
+  | TEqEq => EBin _ _ Eq l r | TBangEq => EBin _ _ NotEq l r | TEqEqEq => EBin _ _ StrictEq l r | TBangEqEq => EBin _ _ StrictNotEq l r
+  | TLt => EBin _ _ Lt l r | TLtEq => EBin _ _ LtEq l r | TGt => EBin _ _ Gt l r | TGtEq => EBin _ _ GtEq l r
+  | TLtLt => EBin _ _ LShift l r | TGtGt => EBin _ _ RShift l r | TGtGtGt => EBin _ _ URShift l r
+  | TPlus => EBin _ _ Add l r | TMinus => EBin _ _ Sub l r
+  | TStar => EBin _ _ Mul l r | TSlash => EBin _ _ Div l r | TPercent => EBin _ _ Mod l r | TStarStar => EBin _ _ Exp l r
+  end.
+Fixpoint tree_expr (t : tree x_expr optok) : x_expr :=
+  match t with Leaf _ _ a => a | Node _ _ o l r => tok_node o (tree_expr l) (tree_expr r) end.
+Definition chain (a : x_expr) (rest : list (optok * x_expr)) : x_expr :=
+  match parse_chain x_expr a rest with Some t => tree_expr t | None => a end.
 
 (* ---- rendering ---- *)
 Definition binop_name (o : binop) : string :=
